@@ -5,12 +5,16 @@ import (
 	"crypto/aes"
 	"crypto/cipher"
 	"crypto/des"
+	"crypto/ecdsa"
+	"crypto/rsa"
+	"crypto/x509"
 	"encoding/base64"
 	"fmt"
 	"net/url"
 	"os"
 	"path/filepath"
 	"strings"
+	"time"
 
 	"github.com/beevik/etree"
 	"github.com/crewjam/saml"
@@ -117,6 +121,14 @@ func c11Keys() []struct {
 	add("nil", nil)
 	add("int", 7)
 	add("cert", fx.K("sp_rsa2048").Cert)
+	// values of the admitted types that carry no key material
+	add("rsa-typed-nil", (*rsa.PrivateKey)(nil))
+	add("rsa-zero", &rsa.PrivateKey{})
+	add("rsa-zero-by-value", rsa.PrivateKey{})
+	add("rsa-public-only", &rsa.PrivateKey{PublicKey: fx.K("sp_rsa2048").RSA().PublicKey})
+	add("bytes-nil", []byte(nil))
+	add("ecdsa-typed-nil", (*ecdsa.PrivateKey)(nil))
+	add("cert-typed-nil", (*x509.Certificate)(nil))
 	return ks
 }
 
@@ -375,6 +387,16 @@ func runC11(c *core.Ctx) {
 		{"empty", ""},
 		{"whitespace", " \n\t "},
 		{"truncated", fx.K("sp_rsa2048").CertB64()[:200]},
+		// certificates of another key that are unusual in a way certificate-handling code likes to special-case
+		{"other-rsa-ca", fx.CertVariant(fx.K("sp2_rsa2048"), func(t *x509.Certificate) { t.IsCA = true; t.KeyUsage |= x509.KeyUsageCertSign })},
+		{"other-rsa-ca-pathlen0", fx.CertVariant(fx.K("sp3_rsa2048"), func(t *x509.Certificate) { t.IsCA = true; t.MaxPathLenZero = true; t.KeyUsage = x509.KeyUsageCertSign })},
+		{"other-rsa-expired", fx.CertVariant(fx.K("sp2_rsa2048"), func(t *x509.Certificate) { t.NotAfter = time.Date(2001, 1, 1, 0, 0, 0, 0, time.UTC) })},
+		{"other-rsa-same-subject", fx.CertVariant(fx.K("sp2_rsa2048"), func(t *x509.Certificate) {
+			t.Subject = fx.K("sp_rsa2048").Cert.Subject
+			t.SerialNumber = fx.K("sp_rsa2048").Cert.SerialNumber
+		})},
+		{"other-rsa-no-keyusage", fx.CertVariant(fx.K("sp3_rsa2048"), func(t *x509.Certificate) { t.KeyUsage = 0; t.BasicConstraintsValid = false })},
+		{"other-ec-ca", fx.CertVariant(fx.K("sp_p384"), func(t *x509.Certificate) { t.IsCA = true })},
 	}
 	for _, b := range bases {
 		if !b.rsa || b.pt == nil {
